@@ -326,10 +326,28 @@ func (h *ResponseHeader) addVaryBytes(value []byte) {
 	if len(v) == 0 {
 		// 'Vary' is not set
 		h.SetBytesV(HeaderVary, value)
-	} else if !bytes.Contains(v, value) {
+	} else if !varyContains(v, value) {
 		// 'Vary' is set and not contains target value
 		h.SetBytesV(HeaderVary, append(append(v, ','), value...))
 	} // else: 'Vary' is set and contains target value
+}
+
+// varyContains reports whether value is a member of the comma-separated
+// list v. A substring test is not enough: 'X-Accept-Encoding' is not
+// 'Accept-Encoding'.
+func varyContains(v, value []byte) bool {
+	for len(v) > 0 {
+		member := v
+		if n := bytes.IndexByte(v, ','); n >= 0 {
+			member, v = v[:n], v[n+1:]
+		} else {
+			v = nil
+		}
+		if bytes.EqualFold(bytes.Trim(member, " \t"), value) {
+			return true
+		}
+	}
+	return false
 }
 
 // Server returns Server header value.
